@@ -1,7 +1,7 @@
 //! C05 — each role matches what the role above it pinned (no mix-and-match).
 
 use crate::classify::{classify, variant, Class};
-use crate::engine::{block_on, Check, Outcome, Tier};
+use crate::engine::{block_on, Check, Outcome, Scratch, Tier};
 use crate::json::{self, Style, J};
 use crate::keys;
 use crate::prng::Rng;
@@ -44,6 +44,12 @@ pub struct Sc {
     pub pin_variant: (Variant, Variant),
     /// what the adversary serves for timestamp, snapshot, targets, delegated role: (epoch, variant)
     pub serve: [(usize, Variant); 4],
+    /// run an earlier honest cycle first, on the datastore the judged cycle then uses: the newest
+    /// state none of whose versions exceeds what the judged cycle is served (so that rollback
+    /// protection has nothing to object to); the stored files then have the same or lower
+    /// versions as the served ones but possibly other bytes
+    #[serde(default)]
+    pub warm: bool,
 }
 
 pub struct C05;
@@ -114,7 +120,7 @@ impl Check for C05 {
         "C05"
     }
     fn rule(&self) -> String {
-        "1..3 repository states with role versions 1..3; pins in timestamp and snapshot: version only / +length / +sha256 / both; four byte variants of each signed document (compact, pretty, member order reversed, junk signature appended); delegated role present/absent, listed/omitted in snapshot; consistent snapshots on/off; the adversary serves each of timestamp, snapshot, targets, delegated role from any state in any variant; non-trivial = at least one served file comes from another state or variant than the one pinned and the client fetched it; distinct = distinct canonical trace".into()
+        "1..3 repository states with role versions 1..3; pins in timestamp and snapshot: version only / +length / +sha256 / both; four byte variants of each signed document (compact, pretty, member order reversed, junk signature appended); delegated role present/absent, listed/omitted in snapshot; consistent snapshots on/off; in a third of the runs the datastore comes from an earlier honest cycle of a state whose versions do not exceed the served ones (same or lower versions, possibly other bytes); the adversary serves each of timestamp, snapshot, targets, delegated role from any state in any variant; non-trivial = at least one served file comes from another state or variant than the one pinned and the client fetched it; distinct = distinct canonical trace".into()
     }
     fn assumptions(&self) -> Vec<String> {
         vec!["every served file is individually valid and correctly signed; the oracle compares the bytes actually served with the pins of the documents actually served".into()]
@@ -132,7 +138,7 @@ impl Check for C05 {
         vec!["snapshot_from_other_state", "targets_from_other_state", "delegated_from_other_state", "timestamp_from_other_state", "snapshot_other_byte_variant", "targets_other_byte_variant", "delegated_role_unlisted"]
     }
     fn required_probes(&self, _t: Tier) -> Vec<&'static str> {
-        vec!["consistent_serving_accepted", "mismatch_refused", "benign_variant_accepted"]
+        vec!["consistent_serving_accepted", "mismatch_refused", "benign_variant_accepted", "warm_datastore_from_earlier_cycle"]
     }
     fn generate(&self, seed: u64, _tier: Tier) -> Sc {
         let mut r = Rng::new(seed);
@@ -166,6 +172,7 @@ impl Check for C05 {
             list_delegated: !has_delegated || r.chance(5, 6),
             pin_variant: pv,
             serve,
+            warm: r.chance(1, 3),
         }
     }
     fn shrink(&self, sc: &Sc) -> Vec<Sc> {
@@ -175,6 +182,9 @@ impl Check for C05 {
         }
         if sc.has_delegated {
             v.push(Sc { has_delegated: false, list_delegated: true, ..sc.clone() });
+        }
+        if sc.warm {
+            v.push(Sc { warm: false, ..sc.clone() });
         }
         for i in 0..4 {
             let pinned = match i {
@@ -238,9 +248,52 @@ impl Check for C05 {
             "cfg consistent={} epochs={:?} ts_pins={:?} snap_pins={:?} deleg={}/{} pin_variant={:?} serve={:?}",
             sc.consistent, sc.epochs, sc.ts_pins, sc.snap_pins, sc.has_delegated, sc.list_delegated, sc.pin_variant, sc.serve
         ));
+        // ---- an earlier honest cycle on the same datastore
+        let scratch = Scratch::new();
+        let ds = scratch.dir("datastore");
+        let mut warmed = false;
+        if sc.warm && (sc.list_delegated || !sc.has_delegated) {
+            let served = [&sc.epochs[sc.serve[0].0], &sc.epochs[sc.serve[1].0], &sc.epochs[sc.serve[2].0], &sc.epochs[sc.serve[3].0]];
+            let fits = |e: &Ep| e.ts_v <= served[0].ts_v && e.snap_v <= served[1].snap_v && e.tg_v <= served[1].tg_v && e.tg_v <= served[2].tg_v && e.d_v <= served[1].d_v && e.d_v <= served[3].d_v;
+            if let Some(pi) = (0..sc.epochs.len()).rev().find(|i| fits(&sc.epochs[*i])) {
+                let d = &docs[pi];
+                let (p_ts, p_snap, p_tg) = (render(&d.ts, Variant::Compact, w), render(&d.snap, sc.pin_variant.0, w), render(&d.tg, sc.pin_variant.1, w));
+                let p_d1 = d.d1.as_ref().map(|x| render(x, Variant::Compact, w));
+                let t_then = SimTransport::new(move |r| {
+                    if r.base != Base::Metadata || r.rel.ends_with("root.json") {
+                        return Resp::not_found();
+                    }
+                    if r.rel == "timestamp.json" {
+                        Resp::whole(&p_ts)
+                    } else if r.rel.ends_with("snapshot.json") {
+                        Resp::whole(&p_snap)
+                    } else if r.rel.ends_with("targets.json") {
+                        Resp::whole(&p_tg)
+                    } else if r.rel.ends_with("d1.json") {
+                        p_d1.as_ref().map_or(Resp::not_found(), |b| Resp::whole(b))
+                    } else {
+                        Resp::not_found()
+                    }
+                });
+                let (sb, ds2) = (shipped.clone(), ds.clone());
+                let then = block_on(async move { world::load(&sb, t_then, Some(&ds2), world::LoadOpts::default()).await.map(|_| ()).map_err(|e| variant(&e)) });
+                o.ev(format!("earlier honest cycle of state {pi}: {then:?}"));
+                match then {
+                    Ok(()) => warmed = true,
+                    Err(e) => {
+                        o.violate("matching-files-rejected", format!("an honest cycle serving state {pi} exactly as pinned failed with {e}"));
+                        return o;
+                    }
+                }
+            }
+        }
+        if warmed {
+            o.probe("warm_datastore_from_earlier_cycle");
+        }
         let t2 = transport.clone();
+        let ds3 = ds.clone();
         let res = block_on(async move {
-            match world::load(&shipped, t2, None, world::LoadOpts::default()).await {
+            match world::load(&shipped, t2, Some(&ds3), world::LoadOpts::default()).await {
                 Ok(repo) => Ok((
                     repo.timestamp().signed.version.get(),
                     repo.snapshot().signed.version.get(),
